@@ -122,7 +122,9 @@ func c11Exec(ctx *vk.Ctx, c c11Case) error {
 func c11Oracle(ctx *vk.Ctx, c c11Case) error {
 	ctx.Class("src=" + c.Src)
 	ctx.Class("mode=" + c.Mode)
+	t0 := time.Now()
 	res, confirmed, note, err := c11Submit(c11InputOf(c))
+	wall := time.Since(t0).Milliseconds()
 	if err != nil {
 		// harness trouble (cannot start a child): not a verdict about gno
 		panic(fmt.Sprintf("c11 harness: %v", err))
@@ -160,7 +162,7 @@ func c11Oracle(ctx *vk.Ctx, c c11Case) error {
 	o := res.Out
 	if p := os.Getenv("C11_LOG"); p != "" { // calibration aid
 		if f, ferr := os.OpenFile(p, os.O_APPEND|os.O_CREATE|os.O_WRONLY, 0o644); ferr == nil {
-			b, _ := json.Marshal(map[string]any{"src": c.Src, "note": c.Note, "gas": c.Gas, "class": o.Class, "reached": o.Reached, "site": o.Site, "detail": c11Bound(o.Detail, 300), "ms": o.MS, "rss": o.RSSMB - o.BaseMB, "gas_used": o.GasUsed})
+			b, _ := json.Marshal(map[string]any{"src": c.Src, "note": c.Note, "gas": c.Gas, "class": o.Class, "reached": o.Reached, "site": o.Site, "detail": c11Bound(o.Detail, 300), "ms": o.MS, "wall": wall, "t": time.Now().UnixMilli(), "rss": o.RSSMB - o.BaseMB, "gas_used": o.GasUsed})
 			f.Write(append(b, '\n'))
 			f.Close()
 		}
